@@ -22,7 +22,7 @@ def gen(ctx):
     rnd = random.Random(ctx.seed * 104729 + 6)
     stacks = list(IO.QUICK_STACKS)
     seen = {json.dumps(s) for s in stacks}
-    extra = 9 if ctx.quick else 160
+    extra = 9 if ctx.quick else 300
     guard = 0
     while extra and guard < 5000:
         guard += 1
